@@ -266,6 +266,7 @@ struct Runner : IRunner {
     static constexpr bool is_deferred = std::is_base_of_v<policy::deferred_static_rtti, P>;
     static constexpr bool is_proj = std::is_base_of_v<proj_rtti, P>;
     static constexpr bool is_wide = std::is_base_of_v<wide_rtti, P>;
+    static constexpr bool is_small = std::is_base_of_v<small_rtti, P>;
 
     const char* name_;
     std::vector<Slot> pool;
@@ -343,6 +344,8 @@ struct Runner : IRunner {
     static type_id real_id(int c, int alias) {
         if constexpr (is_std) {
             return std_id_(c, std::make_integer_sequence<int, kStdPool>());
+        } else if constexpr (is_small) {
+            return type_id(c) - 1;
         } else if constexpr (is_wide) {
             return (type_id(c) << 32) | 16;
         } else {
@@ -366,6 +369,8 @@ struct Runner : IRunner {
                 }
             }
             return -1;
+        } else if constexpr (is_small) {
+            return id < 63 ? int(id) + 1 : -1;
         } else if constexpr (is_wide) {
             if ((id & 0xffffffffu) == 16 && (id >> 32) >= 1 && (id >> 32) < 64) {
                 return int(id >> 32);
